@@ -100,9 +100,86 @@ type Ctx struct {
 	next  int
 	Vars  []*Term
 	fresh map[string]int
+	vsets map[int][]int32
 }
 
-func NewCtx() *Ctx { return &Ctx{tab: map[string]*Term{}, fresh: map[string]int{}} }
+func NewCtx() *Ctx {
+	return &Ctx{tab: map[string]*Term{}, fresh: map[string]int{}, vsets: map[int][]int32{}}
+}
+
+// VarSet returns the sorted ids of the free variables of t (memoised per term).
+func (c *Ctx) VarSet(t *Term) []int32 {
+	if vs, ok := c.vsets[t.ID]; ok {
+		return vs
+	}
+	type fr struct {
+		t *Term
+		i int
+	}
+	stack := []fr{{t, 0}}
+	for len(stack) > 0 {
+		f := &stack[len(stack)-1]
+		if _, ok := c.vsets[f.t.ID]; ok {
+			stack = stack[:len(stack)-1]
+			continue
+		}
+		if f.i < len(f.t.Args) {
+			a := f.t.Args[f.i]
+			f.i++
+			if _, ok := c.vsets[a.ID]; !ok {
+				stack = append(stack, fr{a, 0})
+			}
+			continue
+		}
+		x := f.t
+		stack = stack[:len(stack)-1]
+		var vs []int32
+		switch {
+		case x.Op == OVar:
+			vs = []int32{int32(x.ID)}
+		case len(x.Args) == 1:
+			vs = c.vsets[x.Args[0].ID]
+		default:
+			for _, a := range x.Args {
+				vs = mergeSorted(vs, c.vsets[a.ID])
+			}
+		}
+		c.vsets[x.ID] = vs
+	}
+	return c.vsets[t.ID]
+}
+
+func mergeSorted(a, b []int32) []int32 {
+	if len(a) == 0 {
+		return b
+	}
+	if len(b) == 0 {
+		return a
+	}
+	// fast path: b subset of a is common; do a plain merge
+	out := make([]int32, 0, len(a)+len(b))
+	i, j := 0, 0
+	for i < len(a) && j < len(b) {
+		switch {
+		case a[i] == b[j]:
+			out = append(out, a[i])
+			i++
+			j++
+		case a[i] < b[j]:
+			out = append(out, a[i])
+			i++
+		default:
+			out = append(out, b[j])
+			j++
+		}
+	}
+	out = append(out, a[i:]...)
+	out = append(out, b[j:]...)
+	if len(out) == len(a) {
+		return a
+	}
+	return out
+}
 
 func (c *Ctx) mk(op Op, s Sort, val uint64, name string, args ...*Term) *Term {
 	var sb strings.Builder
